@@ -117,8 +117,12 @@ def trait_instances(ob):
     obligation (ground facts, never quantified axioms):
       rt(sc)     B_ok(sc,obj,..) and the bytes it produces standing at the parse position  =>  P_ok, P_val == B_ret, P_end = pos + B_len
       sized(sc)  Z_ok(sc,..) => B_len == Z_val for every successful build and P_end - pos == Z_val for every successful parse"""
-    apps = find_apps(list(ob.hyps) + [ob.goal], ('B_ok', 'P_ok', 'Z_ok'))
+    apps = find_apps(list(ob.hyps) + [ob.goal], ('B_ok', 'P_ok', 'Z_ok', 'pyeq'))
     out = []
+    for e in apps['pyeq'].values():
+        if not has_bound_var(e):
+            # == is reflexive (lemma pyeq_reflexive, proved by induction over the byte comparison): ground instance
+            out.append(t.implies(t.eq(e.args[0], e.args[1]), e))
     i = t.var('rt!', t.INT)
     for b in apps['B_ok'].values():
         if has_bound_var(b):
